@@ -266,12 +266,17 @@ def proc_port_targets(base, processes, topology):
         tp = topology.get(k) if isinstance(topology, dict) else None
         if isinstance(sub, Process):
             out.append(base + (k,))
-            if isinstance(tp, dict):
-                for port, path in tp.items():
-                    if isinstance(path, tuple):
-                        n = norm(base + path)
-                        if n is not None:
-                            out.append(n)
+            wired = dict(tp) if isinstance(tp, dict) else {}
+            try:
+                for port in sub.ports_schema():
+                    wired.setdefault(port, (port,))     # a port without topology entry: (port,)
+            except Exception:
+                pass
+            for port, path in wired.items():
+                if isinstance(path, tuple):
+                    n = norm(base + path)
+                    if n is not None:
+                        out.append(n)
         elif isinstance(sub, dict):
             out.extend(proc_port_targets(base + (k,), sub, tp))
     return out
@@ -337,12 +342,8 @@ def named_paths(root, here, upd, ps_path, notes):
             continue
         key = g.get('key')
         base = here + ((key,) if key else ())
-        if key:
-            out.append(base)
-        else:
-            for k in [k for part in ('processes', 'steps', 'initial_state')
-                      if isinstance(g.get(part), dict) for k in g[part]]:
-                out.append(base + (k,))
+        out.append(base)       # without a key the whole branch is (re)generated: sub-schemas and
+        #                        defaults are applied to everything below it
         out.extend(proc_port_targets(base, g.get('processes'), g.get('topology')))
         out.extend(proc_port_targets(base, g.get('steps'), g.get('topology')))
         notes.append(('generate', base, g))
@@ -476,7 +477,9 @@ def check_step(before, root, here, upd, ps_path, named, notes, err, fails):
             if not collided and src != dst:
                 if after[dst][0] != before[src][0]:
                     fails.append(f'move: node at {dst} is not the node that was at {src}')
-                elif not has_update and after[dst][2] != before[src][2]:
+                elif not has_update and after[dst][2] != before[src][2] and not any(
+                        (is_prefix(src, p) and p != src) or (is_prefix(dst, p) and p != dst)
+                        for p in named):
                     fails.append(f'move: contents changed while moving {src} to {dst}')
                 else:
                     for q, (ident, _, _) in before.items():
@@ -566,7 +569,11 @@ def run_impl(case):
             r = node.apply_update(upd, ps)
         except Exception as e:  # noqa
             obs['steps'].append({'err': exc_name(e)})
-            check_step(before, root, here, upd, ps_path, named, notes, True, fails)
+            try:
+                check_step(before, root, here, upd, ps_path, named, notes, True, fails)
+            except Cyclic:
+                obs['steps'][-1] = {'err': 'cyclic-hierarchy'}
+                break
             single = (isinstance(upd, dict) and set(upd) == {'_add'} and isinstance(upd['_add'], list)
                       and len(upd['_add']) == 1)
             if single and notes and notes[0][0] == 'add' and notes[0][4] and dump(root) != before[()][2]:
